@@ -125,6 +125,37 @@ def c20_epilogue(steps, i):
     ]
 
 
+def c15_epilogue(steps, i):
+    """the v1.7.6 upgrade handler (force-completes the staking of the accounts on its list, undelegates them, turns
+    their locked coins into liquid tokens and funds the DAO with those): the listed account w176 holds locked coins
+    delegated to two validators, one of which is tombstoned by double-sign evidence in the block before the upgrade
+    block (it is unbonding when the handler runs) or, in the other variant, stays bonded; all invariant routes are
+    evaluated after the upgrade block and after the blocks that follow it"""
+    np = sum(1 for st in steps if st.get("ev") == "block" for t in st.get("txs", [])
+             if t.get("k") in ("gov_submit", "gov_submit2", "gov_toggle", "gov_evm_params", "gov_coinomics", "gov_erc20_params", "gov_params"))
+    pid = np + 1
+    blk = lambda dt, txs: {"ev": "block", "dt": dt, "proposer": 0, "absent": [], "evidence": [], "txs": txs}
+    votes = [{"k": "gov_vote", "from": "v%d" % v, "id": pid, "opt": "yes"} for v in (1, 2, 3)]
+    passes = blk(61000, [{"k": "send", "from": "a3", "to": "a4", "amt": "1000"}, {"k": "delegate", "from": "a5", "val": 1, "amt": "1000"}])
+    if (i // 6) % 2 == 0:
+        passes["evidence"] = [2]
+    return [
+        blk(5000, [{"k": "vest_create", "from": "a3", "to": "w176", "amt": "3000000000000000000000", "lock": 400000, "vest": 1,
+                    "startOff": -20, "merge": False, "dust": "0"},
+                   {"k": "send", "from": "a3", "to": "w176", "amt": "5000000000000000000"}]),
+        blk(5000, [{"k": "delegate", "from": "w176", "val": 2, "amt": "1000000000000000000000"},
+                   {"k": "delegate", "from": "w176", "val": 0, "amt": "500000000000000000000"},
+                   {"k": "gov_upgrade", "from": "a1", "name": "v1.7.6", "delta": 2}] + votes),
+        passes,
+        blk(5000, [{"k": "send", "from": "a2", "to": "a1", "amt": "1"}]),     # the upgrade block
+        blk(5000, [{"k": "delegate", "from": "a4", "val": 2, "amt": "5000"}, {"k": "undelegate", "from": "a5", "val": 1, "amt": "500"},
+                   {"k": "delegate", "from": "w176", "val": 1, "amt": "1000000000000000000"},
+                   {"k": "send", "from": "w176", "to": "a2", "amt": "7"}]),
+        blk(65000, [{"k": "withdraw", "from": "a5", "val": 1}, {"k": "send", "from": "a6", "to": "a2", "amt": "7"}]),
+        blk(5000, [{"k": "send", "from": "a1", "to": "a2", "amt": "1"}]),
+    ]
+
+
 def run_scenario(wd, i, script, followers):
     """one scenario: generating replica + followers, each a separate OS process"""
     sp = os.path.join(wd, "s%d.json" % i)
@@ -190,6 +221,8 @@ def run_family(c, prop, mode, nscen, maxlen, followers, exhaustive=True):
         if mode == "C20":
             steps = steps + c20_epilogue(steps, i)
             cfg["noPrecompiles"] = i % 3 == 2 and i % 6 != 5
+        if mode == "C15" and i % 6 == 5:
+            steps = steps + c15_epilogue(steps, i)
         full.append({"cfg": cfg, "steps": steps})
     outs = [None] * len(full)
     with concurrent.futures.ThreadPoolExecutor(max_workers=6) as ex:
